@@ -1,6 +1,8 @@
 """C03 - range card has exactly one row at every requested distance, muzzle to range."""
 import time
 
+from contracts.integrate_rt import rt_integrate  # noqa: F401
+
 LEVEL = 'proof'
 EXPLANATION = ('_TrajectoryDataFilter.should_record under contract for EVERY filter state and step (540 paths): a range row lies '
                'exactly at the record distance (interpolation identity), the record distance is the last multiple not beyond '
@@ -15,12 +17,13 @@ NOT_DECIDED = ['the global row-count argument (exactly one row per multiple up t
                'clauses by induction on the steps under H-fwd / H-adv; the ghost-counter invariant next_record_distance = j x '
                'step over the whole loop was not built (DESIGN.md Appendix A INV03), so the count itself is only checked by the '
                'bounded stand-in',
-               'recorded findings of the design round (last row lost with a tail-wind component; extra terminal row when the '
-               'step exceeds the range) are in DESIGN.md section 6 (D15, D16)',
+               'two RECORDED FINDINGS (known_findings.json, each re-checked on every run by a bounded obligation): last row lost '
+               'with a tail-wind component (C03-tail-wind), extra terminal row when the step exceeds the range '
+               '(C03-step-exceeds-range)',
                'float rounding of the accumulated record distance (A-REAL): bounded']
 EXTRA_ASSUMPTIONS = ['H-fwd / H-adv: the projectile keeps moving forward and advances by at most the record step per '
                      'integration step (antecedent of the property)']
-EXTRA = ['bounded_row_structure']
+EXTRA = ['bounded_row_structure', 'bounded_tail_wind_last_row', 'bounded_step_exceeds_range', 'rt_integrate']
 
 
 def bounded_row_structure(tier, seed):
@@ -65,3 +68,41 @@ def bounded_row_structure(tier, seed):
     return result('bounded:row-structure', [mk('one-row-per-multiple-first-row-muzzle-default-step', bad is None,
                   'row count, row distances, first row and default step on long fine-step cards (float drift of the '
                   'accumulated record distance is outside A-REAL)', cases, t0, bad)], t0, props=('C03',))
+
+
+def bounded_tail_wind_last_row(tier, seed):
+    """RECORDED FINDING C03-tail-wind: with a tail-wind component one integration step advances the projectile by more than
+    min(calc_step, record_step) over the ground, so the loop bound range + min_step can be overshot before the row at the
+    requested range has been interpolated"""
+    from pyvc.bounded import pkg, mk
+    from pyvc.scan import result
+    P = pkg()
+    t0 = time.time()
+    missing = []
+    cases = 0
+    for R in range(321, 329):
+        shot = P.Shot(P.Weapon(P.Unit.Inch(2), P.Unit.Inch(12)), P.Ammo(P.DragModel(0.3, P.TableG7), P.Unit.FPS(800)),
+                      winds=[P.Wind(P.Unit.FPS(64), P.Unit.Degree(0))])
+        tr = P.Calculator().fire(shot, P.Unit.Yard(R), P.Unit.Yard(R)).trajectory
+        cases += 1
+        if not any(abs((r.distance >> P.Unit.Yard) - R) < 1e-6 for r in tr):
+            missing.append(R)
+    return result('bounded:tail-wind', [mk('tail-wind-row-at-the-requested-range-present', not missing,
+                  '800 fps load with a 64 fps tail wind, range = step = 321..328 yd: a row at the requested range is present',
+                  cases, t0, f'no row at the requested range for R = {missing} yd' if missing else None)], t0, props=('C03',))
+
+
+def bounded_step_exceeds_range(tier, seed):
+    """RECORDED FINDING C03-step-exceeds-range: the 'at least two points' tail appends the terminal integration point,
+    which is not a multiple of the step"""
+    from pyvc.bounded import pkg, mk
+    from pyvc.scan import result
+    P = pkg()
+    t0 = time.time()
+    shot = P.Shot(P.Weapon(P.Unit.Inch(2), P.Unit.Inch(12)), P.Ammo(P.DragModel(0.3, P.TableG7), P.Unit.FPS(2700)))
+    tr = P.Calculator().fire(shot, P.Unit.Yard(100), P.Unit.Yard(300)).trajectory
+    ds = [r.distance >> P.Unit.Yard for r in tr]
+    ok = all(abs(d / 300 - round(d / 300)) < 1e-9 for d in ds)
+    return result('bounded:step-exceeds-range', [mk('step-larger-than-range-only-rows-at-multiples', ok,
+                  'range 100 yd, step 300 yd: every row lies at a multiple of the step', 1, t0,
+                  None if ok else f'rows at {ds} yd')], t0, props=('C03',))
